@@ -160,11 +160,11 @@ impl Prop for PWalk {
         let r = if noread.is_empty() {
             run_find_inproc(&dir, &args, None, &errf)
         } else {
-            // directories that cannot be read: permissions 000, and the real binary run as an unprivileged user
+            // directories that cannot be read: permissions 311 (no listing, but paths through them still resolve), and the real binary run as an unprivileged user
             // (root reads everything)
             use std::os::unix::fs::PermissionsExt;
             for i in &noread {
-                let _ = std::fs::set_permissions(top.join(node_path(&tree, *i)), std::fs::Permissions::from_mode(0));
+                let _ = std::fs::set_permissions(top.join(node_path(&tree, *i)), std::fs::Permissions::from_mode(0o311));
             }
             let _ = std::fs::set_permissions(top.parent().unwrap(), std::fs::Permissions::from_mode(0o777));
             let r = run_find_bin(&dir, &args, None, &[("VH_SETUID".to_string(), "65534".to_string())], 60);
